@@ -4,7 +4,8 @@
 def bounded(tier, seed, info):
     from bounded.bC10 import run
     from bounded.bHist import run_parser_histories
-    return run(tier, seed, info) + run_parser_histories('C10', tier, seed)
+    from bounded.bCfg import run as run_cfg
+    return run(tier, seed, info) + run_parser_histories('C10', tier, seed) + run_cfg('C10', tier, seed)
 
 
 def lemmas(world, reg, tier):
